@@ -399,4 +399,13 @@ theorem unknown_site_breaks_good :
     ¬ ({ goodParams with goSites := 0 :: knownSites }).GoodGoroutines ∧
     ¬ ({ goodParams with goSites := knownSites.tail }).GoodGoroutines := by decide
 
+/-- **Each client removes its OWN socket directory**, also when several clients were configured with one
+`UnixSocketConfig` value. -/
+theorem kill_removes_own_dir (P : Params) (hP : P.socketDirOwnedByClient = true) (sharedCfg : Bool) :
+    killRemovesOwnDir P sharedCfg = true := by simp [killRemovesOwnDir, hP]
+
+/-- Witness: a client that writes its directory into the caller's struct removes a later client's directory and leaves
+its own -/
+theorem shared_config_witness : killRemovesOwnDir { goodParams with socketDirOwnedByClient := false } true = false := by decide
+
 end GoPlugin.Props.C18
